@@ -147,6 +147,10 @@ def build():
                 return VBool(all_members_nodes(args(t.term)))
             if src == "(_is_valid_child_field_type(t, node_base_type, False) == InvalidTypeReason.OK for t in args)" and name == "all":
                 same_args()
+                # a member's check may raise TypeError; by the callee's exceptional postcondition that member is not a child shape
+                if m.ctx.branch(z3.Bool(fresh_name("member_check_raises"))):
+                    m.ctx.assume(z3.Not(all_child_noseq(args(t.term))))
+                    raise RaiseSig(VExc("TypeError"))
                 return VBool(all_child_noseq(args(t.term)))
             if src == "(is_valid_property_type(t) for t in agrs)" and name == "all":
                 return VBool(all_prop_ok(args(t.term)))
@@ -167,19 +171,124 @@ def build():
                requires=["wf_ty(type_)"], ensures=["result == mentions_node(type_)"],
                note="check_type is the node base class; a class mentions a node iff it is a node class, a NewType as the type it wraps, anything else through its arguments"))
     A(Contract(f"{TM_}:_is_valid_child_field_type", params={"type_": "Ty", "node_base_type": "CheckType", "allow_sequence": "bool"}, returns="Reason", props=P,
-               requires=["wf_ty(type_)"], may_raise=["TypeError"],
+               requires=["wf_ty(type_)"], may_raise=["TypeError"], exc_ensures=["not child_ty(type_, allow_sequence)"],
                ensures=["(result == R_OK) == child_ty(type_, allow_sequence)"],
-               note="OK exactly for the statement's child shapes; a TypeError (issubclass on a non-class) may escape and is mapped to OTHER by the public wrapper"))
+               note="OK exactly for the statement's child shapes; a TypeError (issubclass on a non-class) may escape only for an annotation that is not a child shape, and is mapped to OTHER by the public wrapper"))
     A(Contract(f"{TM_}:_is_valid_child_field_type", variant_of="callee", params={"type_": "Ty", "node_base_type": "CheckType", "allow_sequence": "bool"}, returns="Reason",
-               props=P, trusted=True, trusted_reason="proved above", may_raise=["TypeError"],
-               ensures=["(result == R_OK) == child_ty(type_, allow_sequence)", "implies(child_ty(type_, allow_sequence), True)"]))
+               props=P, trusted=True, trusted_reason="proved above (recursion: induction hypothesis)", may_raise=["TypeError"], exc_ensures=["not child_ty(type_, allow_sequence)"],
+               ensures=["(result == R_OK) == child_ty(type_, allow_sequence)"]))
     reg.contracts[f"{TM_}:_is_valid_child_field_type#callee"].fn = f"{TM_}:_is_valid_child_field_type"
     escapes = z3.Function("type_error_escapes", TY.z3(), z3.BoolSort())
     A(Contract(f"{TM_}:is_valid_child_field_type", params={"type_": "Ty", "node_type": "CheckType"}, returns="Reason", props=P,
                requires=["wf_ty(type_)"],
-               ensures=["implies(result == R_OK, child_ty(type_, True))"],
-               note="total: never raises; OK only for a child shape (a TypeError inside yields OTHER)"))
+               ensures=["(result == R_OK) == child_ty(type_, True)"],
+               note="total: never raises; OK exactly for a child shape (a TypeError inside yields OTHER, and only arises for non-child shapes)"))
     A(Contract(f"{TM_}:is_valid_property_type", params={"type_": "Ty"}, returns="bool", props=P,
                requires=["wf_ty(type_)"], ensures=["result == prop_ok(type_)"],
                note="a property annotation is valid iff no mutable collection occurs anywhere in it"))
-    return world, lib, reg, []
+    # ---- process_node_fields: the authoritative partition of a class's dataclass fields ---------------------------------
+    from pyvc.contract import Loop
+    from pyvc.core import mk_snoc
+    from pyvc.maps import VMap, map_sort
+    from pyvc.values import VStr, rec_sort
+    from pyvc.verify import Lemma
+    NCLS, FLD, INFO = usort("NodeClassObj"), usort("DField"), usort("TyInfo")
+    FT = rec_sort("FieldAndType", [("fld", FLD), ("ty", TY)], tuple_like=True)
+    BAD = rec_sort("BadField", [("name", STR), ("reason", STR), ("ty", TY)], tuple_like=True)
+    SFT, SF = seq_of(FT), seq_of(FLD)
+    MFI = map_sort(FLD, INFO)
+    OI = MFI.opt
+    field_types = z3.Function("field_types_of", NCLS.z3(), SFT.z3())
+    info_of = z3.Function("type_info_of", TY.z3(), INFO.z3())
+    fld_name = z3.Function("dfield_name", FLD.z3(), z3.StringSort())
+    reason_text = z3.Function("reason_value", RS.z3(), z3.StringSort())
+    f_of = lambda x: FT.get(FT.wrap(x).term, "fld").term
+    t_of = lambda x: FT.get(FT.wrap(x).term, "ty").term
+    is_bad = lambda x: z3.If(mentions.t(t_of(x)), z3.Not(child_ty.t(t_of(x), z3.BoolVal(True))), z3.Not(prop_ok.t(t_of(x))))
+    cmap, pmap = lib.fn("child_map", [SFT], MFI), lib.fn("prop_map", [SFT], MFI)
+    ckeys, pkeys = lib.fn("child_keys", [SFT], SF), lib.fn("prop_keys", [SFT], SF)
+    any_bad = lib.fn("any_bad_field", [SFT], BOOL)
+    all_wf = lib.fn("all_wf_ty", [SFT], BOOL)
+    present = lambda mp, k: z3.Not(OI.is_none(z3.Select(mp, k)))
+    for (mp, ks, sel, nm) in ((cmap, ckeys, lambda x: z3.And(mentions.t(t_of(x)), z3.Not(is_bad(x))), "child"), (pmap, pkeys, lambda x: z3.And(z3.Not(mentions.t(t_of(x))), z3.Not(is_bad(x))), "prop")):
+        mp.rule(f"{nm}_map-empty", 0, "empty")(lambda a, p: MFI.empty().term)
+        mp.rule(f"{nm}_map-snoc", 0, "snoc")(lambda a, p, mp=mp, sel=sel: z3.If(sel(p[1]), z3.Store(mp.t(p[0]), f_of(p[1]), OI.some(INFO.wrap(info_of(t_of(p[1])))).term), mp.t(p[0])))
+        ks.rule(f"{nm}_keys-empty", 0, "empty")(lambda a, p: z3.Empty(SF.z3()))
+        ks.rule(f"{nm}_keys-snoc", 0, "snoc")(lambda a, p, mp=mp, ks=ks, sel=sel: z3.If(z3.And(sel(p[1]), z3.Not(present(mp.t(p[0]), f_of(p[1])))), mk_snoc(ks.t(p[0]), f_of(p[1])), ks.t(p[0])))
+    any_bad.rule("any_bad-empty", 0, "empty")(lambda a, p: z3.BoolVal(False))
+    any_bad.rule("any_bad-snoc", 0, "snoc")(lambda a, p: z3.Or(any_bad.t(p[0]), is_bad(p[1])))
+    all_wf.rule("all_wf-empty", 0, "empty")(lambda a, p: z3.BoolVal(True))
+    all_wf.rule("all_wf-snoc", 0, "snoc")(lambda a, p: z3.And(all_wf.t(p[0]), wfd.t(t_of(p[1]))))
+    all_wf.rule("all_wf-prefix", 0, "concat", "lemma", raw=True)(lambda a, p: z3.Implies(all_wf.t(z3.Concat(p[0], p[1])), all_wf.t(p[0])))
+    sf.update({"child_map": cmap, "prop_map": pmap, "child_keys": ckeys, "prop_keys": pkeys, "any_bad_field": any_bad, "all_wf_ty": all_wf,
+               "field_types_of": lambda c: SFT.wrap(field_types(c.term))})
+
+    def attr_p(m, obj, name):
+        if isinstance(obj, VU) and obj.sort == FLD and name == "name":
+            return VStr(fld_name(obj.term))
+        if isinstance(obj, VU) and obj.sort == RS and name == "value":
+            return VStr(reason_text(obj.term))
+        if isinstance(obj, VSeq) and obj.sort == SFT and name == "items":
+            return VPy(("ft_items", obj))
+        return None
+
+    def call_p(m, func, a, kw, node):
+        if isinstance(func, VPy) and isinstance(func.obj, tuple) and func.obj[0] == "ft_items":
+            return func.obj[1]
+        return NotImplemented
+
+    world.attr_hooks.insert(0, attr_p)
+    world.call_hooks.insert(0, call_p)
+    world.exc_parents["InvalidFieldAnnotations"] = "Exception"
+    A(Contract(f"{TM_}:get_field_types", params={"type_": "NodeClassObj"}, returns="Seq[FieldAndType]", props=P, trusted=True,
+               trusted_reason="the dataclass fields of the class with their resolved annotations (get_type_hints for postponed ones, NewType unwrapped once), as the item list of "
+                              "the returned dict; resolution of string annotations is CPython's",
+               may_raise=["Exception"], ensures=["result == field_types_of(type_)"]))
+    A(Contract(f"{TM_}:get_type_info", params={"type_": "Ty", "allow_sequence": "bool"}, returns="TyInfo", props=P, trusted=True,
+               trusted_reason="cached constructor of the (is_collection, type) record", ensures=["result == type_info_of(type_)"]))
+    sf["type_info_of"] = lambda t: INFO.wrap(info_of(t.term))
+    A(Contract(f"{TM_}:process_node_fields", params={"type_": "NodeClassObj", "node_base_type": "CheckType"}, returns="Tuple[Dict,Dict]", props=P,
+               requires=["all_wf_ty(field_types_of(type_))"],
+               locals={"incorrect_fields": "List[BadField]", "child_fields": "ODict[DField,TyInfo]", "props": "ODict[DField,TyInfo]"},
+               may_raise=["Exception"],
+               raises=[("InvalidFieldAnnotations", "any_bad_field(field_types_of(type_))")],
+               ensures=["result[0] == child_map(field_types_of(type_))", "keys_of(result[0]) == child_keys(field_types_of(type_))",
+                        "result[1] == prop_map(field_types_of(type_))", "keys_of(result[1]) == prop_keys(field_types_of(type_))"],
+               loops={1: Loop(inv=["child_fields == child_map(done1)", "keys_of(child_fields) == child_keys(done1)", "props == prop_map(done1)", "keys_of(props) == prop_keys(done1)",
+                                   "(len(incorrect_fields) > 0) == any_bad_field(done1)", "all_wf_ty(seq1)"])},
+               note="a field whose annotation mentions a node class is a child field when the annotation is one of the child shapes, a field that mentions none is a property when it "
+                    "holds no mutable collection; any other field makes the whole class rejected with InvalidFieldAnnotations; otherwise children and properties are listed in "
+                    "dataclass field order"))
+    # each field lands in exactly one class (fields of a dataclass are distinct objects)
+    has_f = lib.fn("has_field", [SFT, FLD], BOOL)
+    nodup = lib.fn("distinct_fields", [SFT], BOOL)
+    has_f.rule("has_field-empty", 0, "empty")(lambda a, p: z3.BoolVal(False))
+    has_f.rule("has_field-snoc", 0, "snoc")(lambda a, p: z3.Or(has_f.t(p[0], a[1]), f_of(p[1]) == a[1]))
+    nodup.rule("distinct_fields-empty", 0, "empty")(lambda a, p: z3.BoolVal(True))
+    nodup.rule("distinct_fields-snoc", 0, "snoc")(lambda a, p: z3.And(nodup.t(p[0]), z3.Not(has_f.t(p[0], f_of(p[1])))))
+    s_, x_, g_ = z3.Const("s_ex1", SFT.z3()), z3.Const("x_ex1", FT.z3()), z3.Const("g_ex1", FLD.z3())
+
+    def one_class(s, g):
+        inc, inp = present(cmap.t(s), g), present(pmap.t(s), g)
+        return z3.Implies(z3.And(nodup.t(s), z3.Not(any_bad.t(s))), z3.And(z3.Implies(has_f.t(s, g), z3.Xor(inc, inp)), z3.Implies(z3.Not(has_f.t(s, g)), z3.And(z3.Not(inc), z3.Not(inp)))))
+
+    def ex_base(bank):
+        return [], one_class(z3.Empty(SFT.z3()), g_)
+
+    def ex_step(bank):
+        whole = mk_snoc(s_, x_)
+        bank.add(whole, ("snoc", s_, x_))
+        return [one_class(s_, g_), one_class(s_, f_of(x_))], one_class(whole, g_)
+    lem = [Lemma("exactly-one-class", [("base", ex_base), ("step", ex_step)], P)]
+    wa, wb, wy = z3.Const("wa_l", SFT.z3()), z3.Const("wb_l", SFT.z3()), z3.Const("wy_l", FT.z3())
+
+    def wp_base(bank):
+        return [], z3.Implies(all_wf.t(z3.Concat(wa, z3.Empty(SFT.z3()))), all_wf.t(wa))
+
+    def wp_step(bank):
+        ih = z3.Implies(all_wf.t(z3.Concat(wa, wb)), all_wf.t(wa))
+        whole = z3.Concat(wa, mk_snoc(wb, wy))
+        bank.add(whole, ("snoc", z3.Concat(wa, wb), wy))
+        return [ih], z3.Implies(all_wf.t(whole), all_wf.t(wa))
+    lem.append(Lemma("all_wf-prefix", [("base", wp_base), ("step", wp_step)], P))
+    return world, lib, reg, lem
